@@ -22,8 +22,8 @@ RULE = ("baseline dilation scenarios (dilate at a random point, subchannel traff
         "connection, no timer. Non-trivial = close was issued while a Manager existed; distinct = "
         "(Manager state, Connector state, closer, role, scenario) at the moment of close.")
 ASSUMPTIONS = ["Noise stand-in", "bounded progress: 300 virtual seconds after close()"]
-FLOORS = {"quick": {"closes_with_manager": 500, "old_peer_cases": 40, "closes_after_bulk_write": 40, "closes_with_peer_paused": 15, "late_dilate_cases": 30, "closes_with_a_running_producer_on_a_saturated_link": 4, "closes_after_a_silent_connection_with_unsent_data_was_given_up": 20},
-          "thorough": {"closes_with_manager": 20000, "old_peer_cases": 1500, "closes_after_bulk_write": 2000, "closes_with_peer_paused": 400, "late_dilate_cases": 1000, "closes_with_a_running_producer_on_a_saturated_link": 100, "closes_after_a_silent_connection_with_unsent_data_was_given_up": 700}}
+FLOORS = {"quick": {"old_peer_connects_repeated_on_one_endpoint": 40, "closes_with_manager": 500, "old_peer_cases": 40, "closes_after_bulk_write": 40, "closes_with_peer_paused": 15, "late_dilate_cases": 30, "closes_with_a_running_producer_on_a_saturated_link": 4, "closes_after_a_silent_connection_with_unsent_data_was_given_up": 20},
+          "thorough": {"old_peer_connects_repeated_on_one_endpoint": 1200, "closes_with_manager": 20000, "old_peer_cases": 1500, "closes_after_bulk_write": 2000, "closes_with_peer_paused": 400, "late_dilate_cases": 1000, "closes_with_a_running_producer_on_a_saturated_link": 100, "closes_after_a_silent_connection_with_unsent_data_was_given_up": 700}}
 
 
 def cases(tier, seed, prep=None):
@@ -590,14 +590,24 @@ def run_oldpeer(spec):
     sch = Scheduler(world, None, strategy="random", chunking="whole")
     results = []
 
+    eps = {}
+    reuse = spec["seed"] % 2 == 0          # an application that keeps its endpoint object and connects through it again and again
+
     def issue(tag):
         dw = dp.dilate("A")
         idx = len(results)
         results.append([tag, "connect", "pending", world.step])
         results.append([tag, "when_dilated", "pending", world.step])
-        dw.connector_for("p").connect(RecFactory(dp, "A.open")).addCallbacks(
+        ep = eps.setdefault("p", dw.connector_for("p")) if reuse else dw.connector_for("p")
+        ep.connect(RecFactory(dp, "A.open")).addCallbacks(
             lambda p: results[idx].__setitem__(2, "connected"), lambda f: results[idx].__setitem__(2, f.type.__name__))
         dw.when_dilated().addCallbacks(lambda p: results[idx + 1].__setitem__(2, "fired"), lambda f: results[idx + 1].__setitem__(2, f.type.__name__))
+        if reuse:
+            for j in range(rng.randint(1, 2)):
+                k = len(results)
+                results.append([tag, "connect-again-on-the-same-endpoint", "pending", world.step])
+                ep.connect(RecFactory(dp, "A.open")).addCallbacks(
+                    lambda p, k=k: results[k].__setitem__(2, "connected"), lambda f, k=k: results[k].__setitem__(2, f.type.__name__))
     when = rng.choice(["before", "before", "after", "both"])
     if when in ("before", "both"):
         sch.run(rng.randint(0, 40))
@@ -624,5 +634,5 @@ def run_oldpeer(spec):
         viol.append({"key": "C17/old-peer/close-never-completes/%s" % dp.mstate("A"), "msg": "close with a non-dilating peer hangs (Manager %s)" % dp.mstate("A"),
                      "witness": {"spec": spec, "results": results}})
     world.finish()
-    return {"violations": viol, "nontrivial": ["oldpeer", when, spec["seed"]], "counters": {"old_peer_cases": 1, "old_peer_calls": len(results)},
+    return {"violations": viol, "nontrivial": ["oldpeer", when, spec["seed"]], "counters": {"old_peer_cases": 1, "old_peer_calls": len(results), "old_peer_connects_repeated_on_one_endpoint": sum(1 for x in results if x[1].startswith("connect-again"))},
             "sample": {"kind": "oldpeer", "when": when, "results": results, "verdicts": [dp.a.close_results, dp.b.close_results]}}
